@@ -347,6 +347,102 @@ theorem pyEq_false_of_name_ne {c : CmpCfg} (hE : EField.name ∈ c.elEq) (hI : I
     refine ⟨.inh .name, hI, ?_⟩
     simp [ifEq, efEq, h]
 
+
+/-! ### `lower` distributes over concatenation (byte-wise map) -/
+
+theorem lowerByte_zero : lowerByte 0 = 0 := by decide
+
+theorem lowerAux_zero (f : Nat) : lowerAux f 0 = 0 := by
+  induction f with
+  | zero => rfl
+  | succ f ih => simp [lowerAux, ih, lowerByte_zero]
+
+theorem lowerAux_fuel (f g n : Nat) (h : n < 256 ^ f) : lowerAux (f + g) n = lowerAux f n := by
+  induction f generalizing n with
+  | zero =>
+    have : n = 0 := by simpa using h
+    subst this
+    simp [lowerAux_zero]
+  | succ f ih =>
+    have hd : n / 256 < 256 ^ f := by
+      rw [Nat.div_lt_iff_lt_mul (by norm_num)]
+      rw [pow_succ] at h
+      exact h
+    rw [show f + 1 + g = (f + g) + 1 by omega]
+    simp only [lowerAux]
+    rw [ih _ hd]
+
+/-- any sufficient fuel gives the same result -/
+theorem lowerAux_fuel' (f1 f2 n : Nat) (h1 : n < 256 ^ f1) (h2 : n < 256 ^ f2) : lowerAux f1 n = lowerAux f2 n := by
+  rcases Nat.le_total f1 f2 with h | h
+  · obtain ⟨g, rfl⟩ := Nat.exists_eq_add_of_le h
+    exact (lowerAux_fuel f1 g n h1).symm
+  · obtain ⟨g, rfl⟩ := Nat.exists_eq_add_of_le h
+    exact lowerAux_fuel f2 g n h2
+
+theorem lowerAux_split (m f a b : Nat) (hb : b < 256 ^ m) :
+    lowerAux (m + f) (a * 256 ^ m + b) = lowerAux f a * 256 ^ m + lowerAux m b := by
+  induction m generalizing b with
+  | zero =>
+    have : b = 0 := by simpa using hb
+    subst this
+    simp [lowerAux]
+  | succ m ih =>
+    have hd : b / 256 < 256 ^ m := by
+      rw [Nat.div_lt_iff_lt_mul (by norm_num)]
+      rw [pow_succ] at hb
+      exact hb
+    have e1 : (a * 256 ^ (m + 1) + b) / 256 = a * 256 ^ m + b / 256 := by
+      rw [pow_succ, ← Nat.mul_assoc, Nat.add_comm, Nat.add_mul_div_right _ _ (by norm_num : 0 < 256), Nat.add_comm]
+    have e2 : (a * 256 ^ (m + 1) + b) % 256 = b % 256 := by
+      rw [pow_succ, ← Nat.mul_assoc, Nat.add_comm, Nat.add_mul_mod_self_right]
+    rw [show m + 1 + f = (m + f) + 1 by omega]
+    simp only [lowerAux]
+    rw [e1, e2, ih _ hd]
+    ring
+
+theorem lt_pow_bytes (n : Nat) : n < 256 ^ bytes n := by
+  unfold bytes
+  by_cases h : n = 0
+  · subst h; simp
+  · have hb : n.beq 0 = false := by
+      cases hh : n.beq 0
+      · rfl
+      · exact absurd (nbeq.mp hh) h
+    simp only [hb]
+    have h1 : n < 2 ^ (n.log2 + 1) := Nat.lt_log2_self
+    have h2 : (256 : Nat) ^ (n.log2 / 8 + 1) = 2 ^ (8 * (n.log2 / 8 + 1)) := by
+      rw [show (256 : Nat) = 2 ^ 8 by norm_num, ← pow_mul]
+    have h3 : n.log2 + 1 ≤ 8 * (n.log2 / 8 + 1) := by omega
+    calc n < 2 ^ (n.log2 + 1) := h1
+      _ ≤ 2 ^ (8 * (n.log2 / 8 + 1)) := Nat.pow_le_pow_right (by norm_num) h3
+      _ = 256 ^ (n.log2 / 8 + 1) := h2.symm
+
+/-- `(a + b).lower() = a.lower() + b` for a suffix `b` that lower-casing leaves alone (e.g. decimal digits) -/
+theorem lower_cat_of (a b : Nat) (hb : lower b = b) : lower (cat a b) = cat (lower a) b := by
+  have hbb := lt_pow_bytes b
+  have hab : a * 256 ^ bytes b + b < 256 ^ (bytes b + bytes a) := by
+    have ha := lt_pow_bytes a
+    rw [pow_add]
+    calc a * 256 ^ bytes b + b < a * 256 ^ bytes b + 256 ^ bytes b := by omega
+      _ = (a + 1) * 256 ^ bytes b := by ring
+      _ ≤ 256 ^ bytes a * 256 ^ bytes b := Nat.mul_le_mul_right _ ha
+      _ = 256 ^ bytes b * 256 ^ bytes a := Nat.mul_comm _ _
+  unfold lower at hb
+  show lowerAux (bytes (cat a b)) (cat a b) = cat (lowerAux (bytes a) a) b
+  unfold cat
+  rw [lowerAux_fuel' _ (bytes b + bytes a) _ (lt_pow_bytes _) hab, lowerAux_split _ _ _ _ hbb, hb]
+
+theorem cat_div (a b : Nat) : cat a b / 256 ^ bytes b = a := by
+  unfold cat
+  have hb := lt_pow_bytes b
+  have hp : 0 < 256 ^ bytes b := Nat.pos_of_ne_zero (by positivity)
+  rw [Nat.add_comm, Nat.add_mul_div_right _ _ hp, Nat.div_eq_of_lt hb, Nat.zero_add]
+
+theorem cat_mod (a b : Nat) : cat a b % 256 ^ bytes b = b := by
+  unfold cat
+  rw [Nat.add_comm, Nat.add_mul_mod_self_right, Nat.mod_eq_of_lt (lt_pow_bytes b)]
+
 /-! ### weights -/
 
 /-- the integer test `weightNear` is `|w − A| ≤ 1/10` for the rational `w = wNum / wDen` -/
